@@ -166,34 +166,47 @@ func Run(progs []Prog, timeout time.Duration) (map[string]Result, error) {
 		go func(name, exe string) {
 			defer wg.Done()
 			defer func() { <-sem }()
-			ctx, cancel := context.WithTimeout(context.Background(), timeout)
-			defer cancel()
-			c := exec.CommandContext(ctx, exe)
-			c.Dir = dir
-			var so, se bytes.Buffer
-			c.Stdout, c.Stderr = &so, &se
-			c.Env = []string{"GOTRACEBACK=single", "PATH=/usr/bin:/bin", "HOME=" + dir}
-			err := c.Run()
-			r := Result{Stdout: clip(so.String(), 1<<16), Stderr: clip(se.String(), 4000)}
-			if ctx.Err() == context.DeadlineExceeded {
-				r.TimedOut = true
-			} else if ee, ok := err.(*exec.ExitError); ok {
-				r.Exit = ee.ExitCode()
-			} else if err != nil {
-				r.Exit = -1
-				r.Stderr += "\n" + err.Error()
-			}
-			r.Panic = panicParagraph(se.String())
+			r := runOne(dir, exe, timeout)
 			mu.Lock()
 			res[name] = r
 			mu.Unlock()
 		}(name, exe)
 	}
 	wg.Wait()
+	// a program that ran out of time while 16 others (and whatever else keeps the machine busy) were
+	// running is run once more, alone and with six times the budget, before it counts as timed out
+	for _, name := range names {
+		if r, ok := res[name]; ok && r.TimedOut {
+			res[name] = runOne(dir, filepath.Join(bin, name), 6*timeout)
+		}
+	}
 	if buildErr != nil && len(perPkg) == 0 && missing > 0 {
 		return res, fmt.Errorf("go build failed without per-package diagnostics: %v\n%s", buildErr, clip(string(out), 2000))
 	}
 	return res, nil
+}
+
+// runOne runs one built program with a wall-clock budget.
+func runOne(dir, exe string, timeout time.Duration) Result {
+	ctx, cancel := context.WithTimeout(context.Background(), timeout)
+	defer cancel()
+	c := exec.CommandContext(ctx, exe)
+	c.Dir = dir
+	var so, se bytes.Buffer
+	c.Stdout, c.Stderr = &so, &se
+	c.Env = []string{"GOTRACEBACK=single", "PATH=/usr/bin:/bin", "HOME=" + dir}
+	err := c.Run()
+	r := Result{Stdout: clip(so.String(), 1<<16), Stderr: clip(se.String(), 4000)}
+	if ctx.Err() == context.DeadlineExceeded {
+		r.TimedOut = true
+	} else if ee, ok := err.(*exec.ExitError); ok {
+		r.Exit = ee.ExitCode()
+	} else if err != nil {
+		r.Exit = -1
+		r.Stderr += "\n" + err.Error()
+	}
+	r.Panic = panicParagraph(se.String())
+	return r
 }
 
 func clip(s string, n int) string {
